@@ -11,6 +11,30 @@ VERIF = os.path.dirname(os.path.dirname(os.path.abspath(__file__)))
 MC = "model_checking"
 
 CLAIMS = {
+    "C02": dict(
+        engine="NixModel",
+        technique="TLA+ spec NixModel checked by TLC (invariants + action properties) + replay of every exported transition (history prefix, action, full projection, reopen) against nixio",
+        text="TLC enumerates every history of create / set-attribute / write / link / unlink / delete calls within the bounds; each exported transition is replayed from an empty file and the file is closed and reopened read-only and read-write: both projections of the complete observable state must equal the specification state reached by the calls (last write wins, deleted stays deleted), with a seeded mix of long-lived handles and fresh lookups.",
+        note="Trusted: TLC; the projection (public API walk) and the concretisation pools; bounded universe (2 names, <= 14 objects, depth bound of the configuration); quick tier replays a seeded stride of the exported transitions, thorough replays more/all.",
+        design_ref="6/C02"),
+    "C03": dict(
+        engine="NixModel",
+        technique="TLA+ spec NixModel checked by TLC (invariants + action properties) + replay of every exported transition (history prefix, action, full projection, reopen) against nixio",
+        text="TLC enumerates all create/delete histories over every container kind (NameUnique, EidUnique, IdNameStable, NumbersNeverReused checked in the model); on every reached state every container is probed through len, iteration, positive and negative indices, by-name, by-id, membership (name/id/entity), items(), absent keys - in the session and after reopen - against the creation-order sequence of the specification; ids must be canonical UUIDs, injective and stable; six name pools incl. reversed sort order, non-NFC unicode, 1000 characters, UUID-looking names.",
+        note="Trusted: TLC; the projection (public API walk) and the concretisation pools; bounded universe (2 names, <= 14 objects, depth bound of the configuration); quick tier replays a seeded stride of the exported transitions, thorough replays more/all.",
+        design_ref="6/C03"),
+    "C04": dict(
+        engine="NixModel",
+        technique="TLA+ spec NixModel checked by TLC (invariants + action properties) + replay of every exported transition (history prefix, action, full projection, reopen) against nixio",
+        text="The specification writes deletion operationally (by entity id over the whole file, like the code) and TLC checks the declarative frame condition DeleteFrame, NoDangling and UnlinkKeepsTarget against it on every state; every link/unlink/delete interleaving after a scripted 14-object prefix is replayed and the whole file (all lists, role links, survivors, order) compared after each call and after reopen.",
+        note="Trusted: TLC; the projection (public API walk) and the concretisation pools; bounded universe (2 names, <= 14 objects, depth bound of the configuration); quick tier replays a seeded stride of the exported transitions, thorough replays more/all.",
+        design_ref="6/C04"),
+    "C05": dict(
+        engine="NixModel",
+        technique="TLA+ spec NixModel checked by TLC (invariants + action properties) + replay of every exported transition (history prefix, action, full projection, reopen) against nixio",
+        text="Every link append (right kind, wrong kind, other block incl. same-name entities), role assignment and attribute/data write after a scripted prefix with two blocks re-using names; the projection reads every entity through every path that reaches it (container, each link list, each role link) so a copy instead of an alias, or an accepted foreign entity, is a mismatch; LinkKindAndBlock is an invariant of the model.",
+        note="Trusted: TLC; the projection (public API walk) and the concretisation pools; bounded universe (2 names, <= 14 objects, depth bound of the configuration); quick tier replays a seeded stride of the exported transitions, thorough replays more/all.",
+        design_ref="6/C05"),
     "C07": dict(
         engine="NixDim",
         technique="TLA+ spec NixDim (declarative order semantics) checked by TLC + replay of every TLC-exported vector against real dimension objects",
@@ -31,6 +55,18 @@ CLAIMS = {
         note="Trusted: TLC, the transcription of the SI tables into NixUnits.tla (cross-checked: the code accepts every generated "
              "atom), float comparison at rel. tol. 1e-12. Powers limited to -3..3; '^1' vs no power left open.",
         design_ref="6/C09"),
+    "C12": dict(
+        engine="NixModel",
+        technique="TLA+ spec NixModel checked by TLC (invariants + action properties) + replay of every exported transition (history prefix, action, full projection, reopen) against nixio",
+        text="Refused calls are self-loops of the state graph (RefusedUnchanged checked by TLC); every fault class x call site is executed at every reachable state of a populated file and of all small files, the complete projection is compared before/after and after reopen, and the rejected name must stay available.",
+        note="Trusted: TLC; the projection (public API walk) and the concretisation pools; bounded universe (2 names, <= 14 objects, depth bound of the configuration); quick tier replays a seeded stride of the exported transitions, thorough replays more/all.",
+        design_ref="6/C12"),
+    "C19": dict(
+        engine="NixModel",
+        technique="TLA+ spec NixModel checked by TLC (invariants + action properties) + replay of every exported transition (history prefix, action, full projection, reopen) against nixio",
+        text="The library clock is replaced by the specification clock; created_at/updated_at of every entity (file and features included) are part of the compared projection, so CreatedAtFixed, UpdatedMonotone, TimestampLocality, NoAutoNoChange and ListedAttrStamps - checked by TLC on the model - are checked on the code after every call (Tick, auto switch at any time, force to pool timestamps 1970..2100, reopen).",
+        note="Trusted: TLC; the projection (public API walk) and the concretisation pools; bounded universe (2 names, <= 14 objects, depth bound of the configuration); quick tier replays a seeded stride of the exported transitions, thorough replays more/all.",
+        design_ref="6/C19"),
 }
 
 NOT_YET = "check not built yet (construction in progress, see DESIGN.md section 8)"
